@@ -12,10 +12,16 @@ Lines:
   `result <t> => err|nil`                          → ok | differ <model>     (what Close call t returned)
   `ev record <cell>` | `ev tick` | `ev exit`       → ok | reject …
   `ev obtain <cell> => live|noop`                  → ok | reject … | differ <model result>
-  `adv loop <target>` | `adv closer <t> <target>`  → ok [pend=<n>] | reject …
-        applies `loop` / `closer t` events (at least one, at most k+6) until the thread's pc is <target>;
+  `adv loop <target> [<c1,c2,…>]` | `adv closer <t> <target> [<c1,c2,…>]`  → ok [pend=<n>] | reject …
+        applies `loop c` / `closer t c` events (at least one, at most k+6) until the thread's pc is <target>;
         targets: waiting ticked begin deliver:<cell> flush exited   (loop)
                  won doneClosed begin deliver:<cell> flush purge reporterClose returned returnedNil   (closer)
+        (a pc inside the range loops is shown as `pick:<number of cells visited>`)
+        the optional last token `c1,c2,…` (`-` = none; may be written `<c1,c2,…>`) lists the cells the pass
+        visits during this advance, in order: the choices of the successive `pick` steps; when the list is
+        exhausted and a `pick` step is still needed the choice is k ("the range loops are over").  Without
+        the token the visiting order is 0,1,…,k-1 as far as needed (first unvisited index; k when all are
+        visited).  The registry is Go maps: the real visiting order is arbitrary and differs between passes.
   `blocked`                                        → blocked <t,t,…>   (Close calls waiting for the loop goroutine)
   `final <observed reporter log>`                  → ok | differ <model log> | violated <clause>
         log tokens, oldest first, `;`-separated: `d<cell>:<n>` (a delivery of n increments of cell), `f`, `c`
@@ -31,26 +37,68 @@ structure DState where
 
 def init : DState := { st := Tally.RootClose.init 0 false false, k := 0, nClosers := 0, steps := 0 }
 
+def passName : PassPc → String
+  | .begin => "begin" | .pick vis => s!"pick:{vis.length}" | .deliver i _ _ => s!"deliver:{i}" | .flush => "flush"
+
 def loopName : LoopPc → String
   | .waiting => "waiting" | .ticked => "ticked" | .exited => "exited"
-  | .pass .begin => "begin" | .pass (.swap i) => s!"swap:{i}" | .pass (.deliver i _) => s!"deliver:{i}" | .pass .flush => "flush"
+  | .pass p => passName p
 
 def closerName : CPc → String
   | .start => "start" | .won => "won" | .doneClosedPc => "doneClosed" | .purgePc => "purge"
   | .reporterClose => "reporterClose" | .returned _ => "returned" | .returnedNil => "returnedNil"
-  | .pass .begin => "begin" | .pass (.swap i) => s!"swap:{i}" | .pass (.deliver i _) => s!"deliver:{i}" | .pass .flush => "flush"
+  | .pass p => passName p
 
 def applyEv (d : DState) (e : Ev) : Option DState :=
   (step d.st e).map fun s' => { d with st := s', steps := d.steps + 1 }
 
-/-- apply `e` repeatedly (at least once) until `done` holds of the state; `none` if a step is not
-enabled or the target is not reached within `fuel` steps -/
-def advance (d : DState) (e : Ev) (done : State → Bool) : Nat → Option DState
+/-- the default visiting order: the first index not visited yet, `k` ("the range loops are over") when all are -/
+def firstUnvisited (k : Nat) (vis : List Nat) : Nat :=
+  ((List.range k).find? fun i => !vis.contains i).getD k
+
+/-- the choice for the thread's next step and what is left of the given visiting order: at a `pick` pc
+the next given cell (`k` when the given list is exhausted), or the default order when none was given;
+at every other pc the choice is not read -/
+def nextChoice (k : Nat) (pc : Option PassPc) (order : Option (List Nat)) : Nat × Option (List Nat) :=
+  match pc with
+  | some (.pick vis) =>
+    match order with
+    | none => (firstUnvisited k vis, none)
+    | some [] => (k, some [])
+    | some (c :: cs) => (c, some cs)
+  | _ => (0, order)
+
+/-- `c1,c2,…` (optionally in angle brackets), `-` for the empty list -/
+def parseOrder (s : String) : Option (List Nat) :=
+  let s := if s.startsWith "<" && s.endsWith ">" then ((s.drop 1).dropEnd 1).toString else s
+  if s == "-" || s == "" then some [] else (s.splitOn ",").mapM parseNat
+
+/-- apply the thread's event (`mk choice`) repeatedly (at least once) until `done` holds of the state;
+`none` if a step is not enabled or the target is not reached within `fuel` steps -/
+def advance (d : DState) (mk : Nat → Ev) (pcOf : State → Option PassPc) (done : State → Bool)
+    (order : Option (List Nat)) : Nat → Option DState
   | 0 => none
   | fuel + 1 =>
-    match applyEv d e with
+    let (c, order') := nextChoice d.k (pcOf d.st) order
+    match applyEv d (mk c) with
     | none => none
-    | some d' => if done d'.st then some d' else advance d' e done fuel
+    | some d' => if done d'.st then some d' else advance d' mk pcOf done order' fuel
+
+def loopPass (s : State) : Option PassPc :=
+  match s.loop with | .pass p => some p | _ => none
+
+def closerPass (t : Nat) (s : State) : Option PassPc :=
+  match s.closers t with | .pass p => some p | _ => none
+
+def advLoop (d : DState) (target : String) (order : Option (List Nat)) : DState × String :=
+  match advance d .loop loopPass (fun s => loopName s.loop == target) order (d.k + 6) with
+  | some d' => (d', s!"ok pend={d'.st.loop.pend.length}")
+  | none => (d, s!"reject loop-cannot-reach {target} from {loopName d.st.loop}")
+
+def advCloser (d : DState) (t : Nat) (target : String) (order : Option (List Nat)) : DState × String :=
+  match advance d (.closer t) (closerPass t) (fun s => closerName (s.closers t) == target) order (d.k + 6) with
+  | some d' => ({ d' with nClosers := max d'.nClosers (t + 1) }, s!"ok pend={(d'.st.closers t).pend.length}")
+  | none => (d, s!"reject closer-{t}-cannot-reach {target} from {closerName (d.st.closers t)} loop={loopName d.st.loop}")
 
 def showLog (l : List LogEv) : String :=
   let toks := l.reverse.filterMap fun
@@ -111,17 +159,19 @@ def handle (d : DState) (toks : List String) : DState × String :=
          if m == res then (d', "ok") else (d', s!"differ {m}")
        | none => (d, "reject obtain-not-enabled"))
     | none => (d, "bad-op parse")
-  | ["adv", "loop", target], [] =>
-    (match advance d .loop (fun s => loopName s.loop == target) (d.k + 6) with
-     | some d' => (d', s!"ok pend={d'.st.loop.pend.length}")
-     | none => (d, s!"reject loop-cannot-reach {target} from {loopName d.st.loop}"))
+  | ["adv", "loop", target], [] => advLoop d target none
+  | ["adv", "loop", target, order], [] =>
+    match parseOrder order with
+    | some o => advLoop d target (some o)
+    | none => (d, "bad-op parse")
   | ["adv", "closer", t, target], [] =>
     match t.toNat? with
-    | some t =>
-      (match advance d (.closer t) (fun s => closerName (s.closers t) == target) (d.k + 6) with
-       | some d' => ({ d' with nClosers := max d'.nClosers (t + 1) }, s!"ok pend={(d'.st.closers t).pend.length}")
-       | none => (d, s!"reject closer-{t}-cannot-reach {target} from {closerName (d.st.closers t)} loop={loopName d.st.loop}"))
+    | some t => advCloser d t target none
     | none => (d, "bad-op parse")
+  | ["adv", "closer", t, target, order], [] =>
+    match t.toNat?, parseOrder order with
+    | some t, some o => advCloser d t target (some o)
+    | _, _ => (d, "bad-op parse")
   | ["blocked"], [] =>
     let ts := (List.range (max d.nClosers 4)).filter fun t => d.st.closers t == .doneClosedPc && d.st.loop != .exited
     (d, "blocked " ++ ",".intercalate (ts.map toString))
